@@ -275,6 +275,7 @@ pub struct Env {
     pub stdin: Option<Vec<u8>>,
     pub abort_at: Option<u64>,
     pub global_threads: usize,
+    pub model_seed: u64,
 }
 
 /// Run `f` as the main task of one simulated execution under `spec`.
@@ -301,6 +302,7 @@ where
         c.io = env.io.clone();
         c.stdin = env.stdin.clone();
         c.abort_at = env.abort_at;
+        c.model_seed = env.model_seed;
         c.global_threads = if env.global_threads == 0 { 4 } else { env.global_threads };
     });
     crate::ctx::set_in_sim(true);
